@@ -106,6 +106,10 @@ func checkC16(r *core.Run) {
 	eval := func(sel string) {
 		for si := range c16Styles {
 			atomic.AddInt64(&evals, 1)
+			if p, msg := core.Try(func() { safehtml.CSSRule(sel, c16Styles[si]) }); p {
+				r.Witness("panic", "", sel, fmt.Sprintf("CSSRule(%s) panicked: %s", core.Q(sel), msg), map[string]interface{}{"Selector": sel, "Style": si})
+				break
+			}
 			if _, err := safehtml.CSSRule(sel, c16Styles[si]); err == nil {
 				atomic.AddInt64(&accepted, 1)
 			}
@@ -117,7 +121,7 @@ func checkC16(r *core.Run) {
 			}
 		}
 	}
-	alpha := []string{"a", " ", "\"", "'", "\\", "(", ")", "[", "]", "{", "}", ";", "@", "<", "/", "*", "\n", "\f", "\r", ",", ":", "=", "é", "\x00", "url(", "URL(", ".", "#", ">", "-", "^"}
+	alpha := []string{"a", " ", "\"", "'", "\\", "(", ")", "[", "]", "{", "}", ";", "@", "<", "/", "*", "\n", "\f", "\r", ",", ":", "=", "é", "\x00", "url(", "URL(", "Url(", "uRl(", "urL(", ".", "#", ">", "-", "^"}
 	ln := 4
 	if r.Thorough() {
 		ln = 5
@@ -140,6 +144,17 @@ func checkC16(r *core.Run) {
 		}
 	}
 	r.Set("layer_frames", nf)
+	// nesting depth and length: every depth 0..300 of balanced and off-by-one bracket runs, long identifiers
+	var nd int64
+	for n := 0; n <= 300; n++ {
+		o, c := strings.Repeat("(", n), strings.Repeat(")", n)
+		for _, sel := range []string{"[" + o + c + ")", "(" + o + c + "]", "[" + o + c + "]", o + "a" + c, "a" + o + c + ")", strings.Repeat("[", n) + strings.Repeat("]", n) + "]",
+			"[" + strings.Repeat(":not(", n) + "a" + c + ")", strings.Repeat("a", n) + "{", strings.Repeat("é", n) + "\"", strings.Repeat("\"x\"", n) + "{", "[a=\"" + strings.Repeat("b", n) + "\"]" + ";"} {
+			eval(sel)
+			nd++
+		}
+	}
+	r.Set("layer_depth", fmt.Sprintf("11 selector shapes x every nesting depth / length 0..300: %d", nd))
 	r.Set("evaluations", evals)
 	r.Set("distinct_nontrivial", accepted)
 	r.Set("rule", "exhaustive enumeration of selectors per layer x 4 styles from the checked constructors; non-trivial = CSSRule accepted the selector, so the single-rule clauses were evaluated on a real style sheet")
